@@ -25,6 +25,9 @@ pub struct MultiCase {
     pub init: Option<Vec<Vec<f64>>>,
     pub gtol: f64,
     pub max_iter: u64,
+    /// max_iterations of the refit that decides a failed stationarity test (0 = no refit)
+    #[serde(default)]
+    pub retry_max_iter: u64,
     pub order: String,
     pub scale: f64,
 }
@@ -123,7 +126,7 @@ fn typed<C: Ord + Clone + Default + std::fmt::Debug>(case: &MultiCase, names: Ve
     if first_trial_clamped {
         out.tag("multi_first_trial_step_inside_log_sum_exp_clamp_region");
     }
-    let model = match guarded(|| params.fit(&ds)) {
+    let mut model = match guarded(|| params.fit(&ds)) {
         Ok(Ok(m)) => m,
         Ok(Err(e)) => {
             let sig = if first_trial_clamped { "multi_logistic.fit.error.log_sum_exp_global_shift_clamp" } else { "multi_logistic.fit.unexpected_error" };
@@ -135,6 +138,48 @@ fn typed<C: Ord + Clone + Default + std::fmt::Debug>(case: &MultiCase, names: Ve
             return out;
         }
     };
+
+    // ---- slow but healthy convergence must not be mistaken for a wrong fixed point: when the first fit
+    //      (max_iter) fails the stationarity test, the verdict is taken from a refit with retry_max_iter ----
+    let gap_tol = 1e-8 * own.f.abs().max(1.0);
+    let measure = |m: &linfa_logistic::MultiFittedLogisticRegression<f64, C>| -> Option<(f64, f64)> {
+        let (wm, bm) = (m.params(), m.intercept());
+        let cl = m.classes();
+        if wm.dim() != (d, k) || bm.len() != k || cl.len() != k {
+            return None;
+        }
+        let mut theta = vec![0.0; pz * k];
+        for c in 0..k {
+            let oc = trained.iter().position(|t| *t == cl[c])?;
+            for j in 0..d {
+                theta[j * k + oc] = wm[(j, c)];
+            }
+            if case.intercept {
+                theta[d * k + oc] = bm[c];
+            }
+        }
+        let e = fgh(&theta)?;
+        Some((norm2(&e.g), e.f - own.f))
+    };
+    if case.retry_max_iter > case.max_iter {
+        if let Some((gn, gap)) = measure(&model) {
+            if gn > 10.0 * case.gtol && gap > gap_tol {
+                out.tag("multi_refits_with_retry_max_iter");
+                match guarded(|| params.clone().max_iterations(case.retry_max_iter).fit(&ds)) {
+                    Ok(Ok(m2)) => model = m2,
+                    Ok(Err(e)) => {
+                        let sig = if first_trial_clamped { "multi_logistic.fit.error.log_sum_exp_global_shift_clamp" } else { "multi_logistic.fit.unexpected_error" };
+                        viols.push(Violation::new(sig, format!("refit with max_iterations {} on an in-domain {}-class dataset returned Err({})", case.retry_max_iter, k, e), cj()));
+                        return out;
+                    }
+                    Err(p) => {
+                        viols.push(Violation::new("multi_logistic.fit.panic", format!("refit panicked: {}", p), cj()));
+                        return out;
+                    }
+                }
+            }
+        }
+    }
 
     // ---- class list ----
     let classes: Vec<C> = model.classes().to_vec();
@@ -178,7 +223,6 @@ fn typed<C: Ord + Clone + Default + std::fmt::Debug>(case: &MultiCase, names: Ve
     let at = fgh(&theta).expect("finite objective at finite parameters");
     let gn = norm2(&at.g);
     let gap = at.f - own.f;
-    let gap_tol = 1e-8 * own.f.abs().max(1.0);
     if gn > 10.0 * case.gtol {
         out.tag("multi_gradient_above_10tol");
     }
@@ -187,9 +231,10 @@ fn typed<C: Ord + Clone + Default + std::fmt::Debug>(case: &MultiCase, names: Ve
         viols.push(Violation::new(
             sig,
             format!(
-                "returned W={:?} b={:?}: own gradient norm of the documented objective {:.3e} > 10 x gradient_tolerance {:.1e} AND objective {:.12} exceeds the own Newton minimum {:.12} by {:.3e} > {:.1e}{}",
+                "returned W={:?} b={:?} (max_iterations {}): own gradient norm of the documented objective {:.3e} > 10 x gradient_tolerance {:.1e} AND objective {:.12} exceeds the own Newton minimum {:.12} by {:.3e} > {:.1e}{}",
                 wm.rows().into_iter().map(|r| r.to_vec()).collect::<Vec<_>>(),
                 bm.to_vec(),
+                case.retry_max_iter.max(case.max_iter),
                 gn,
                 case.gtol,
                 at.f,
